@@ -500,27 +500,10 @@ func checkGatherCycleControl(p *Prog, r *Report) {
 			}
 		}
 	}
-	if ac := p.Fn("Agent.addCandidate"); r.Anchor("Agent.addCandidate", ac != nil) {
-		ctxObj := p.paramObj(ac, 0)
-		n, okAll := 0, true
-		for _, c := range p.CallsTo(ac, false, "taskloop.Loop.Run") {
-			n++
-			if len(c.Args) != 2 || !p.isObj(c.Args[0], ctxObj) {
-				okAll = false
-			}
-		}
-		r.Check(okAll && n > 0, "addCandidate: the publishing task is submitted under the cycle's context", p.Pos(ac.Body.Pos()), "loop.Run(ctx, ...) with the gather context", "the task that stores and publishes a gathered candidate is not submitted under the gathering cycle's context: a task queued behind Restart is no longer cancelled, so a candidate of the cancelled cycle lands in the new generation (with the new ufrag) and is delivered to the handler")
-		early := false
-		walkBody(ac, func(x ast.Node) bool {
-			if c, ok := x.(*ast.CallExpr); ok && p.CalleeName(c) == "context.Context.Err" {
-				if sel, ok := unparen(c.Fun).(*ast.SelectorExpr); ok && p.isObj(sel.X, ctxObj) {
-					early = true
-				}
-			}
-			return true
-		})
-		r.Check(early, "addCandidate: a cancelled cycle is refused before queueing", p.Pos(ac.Body.Pos()), "ctx.Err() tested", "addCandidate no longer refuses a cancelled cycle up front")
-	}
+	// a cancelled cycle contributes nothing: what keeps it out is the re-check inside the task (submitting the
+	// task under the cycle's context is not enough — taskloop.Run may accept it after the cancellation, F21 —
+	// and not necessary either)
+	checkCycleTasksRecheck(p, r)
 	r.Check(rec["cancel"] && rec["done"] && ctxOK, "GatherCandidates: cycle handle recorded", p.Pos(goStmt.Pos()), "cancel func and done channel stored; goroutine runs under the cancellable context", "the new cycle's cancel function / done channel are not recorded or the goroutine does not run under the cancellable context: Restart and Close cannot stop or await it")
 }
 
